@@ -128,6 +128,7 @@ EDITS = [
     ("add-directive-argument", '@tag(name: String = "x", n: Int)', '@tag(name: String = "x", n: Int, m: Int)', "m"),
     ("retype-directive-argument", '@tag(name: String = "x", n: Int)', '@tag(name: String = "x", n: String)', "n"),
     ("directive-argument-default", '@tag(name: String = "x"', '@tag(name: String = "y"', "name"),
+    ("remove-deprecated-field", '  role: Role @deprecated(reason: "old")\n', "", "role"),
     ("deprecate-field", "  age: Int\n", "  age: Int @deprecated\n", "age"),
     ("undeprecate-field", '  role: Role @deprecated(reason: "old")\n', "  role: Role\n", "role"),
     ("field-deprecation-reason", '@deprecated(reason: "old")', '@deprecated(reason: "older")', "role"),
